@@ -61,7 +61,6 @@ def devset(ds):
 def features(cfg):
     """Classification of a case from the case only (site/feature/value class)."""
     used = set(cfg["reg"]) | set(cfg.get("late", []))
-    behs = set(b for r in used for b in cfg["beh"].get(r, []))
     deps = {r: set(cfg["deps"].get(r, [])) for r in used}
     # cyclic?
     cyc = False
@@ -74,17 +73,14 @@ def features(cfg):
             if x not in seen:
                 seen.add(x)
                 todo += list(deps.get(x, []))
-    f = []
-    if cfg.get("late"):
-        f.append("late-root")
-    for b in ("appendsame", "append", "err", "verr"):
-        if b in behs:
-            f.append(b)
+    # site / feature class of the case (coarse on purpose: one key per kind of graph, not per behaviour mix)
     if cyc:
-        f.append("cyclic")
-    elif any(deps.values()):
-        f.append("dag")
-    return "+".join(f) or "plain-independent"
+        return "cyclic-deps"
+    if cfg.get("late"):
+        return "late-roots"
+    if any(deps.values()):
+        return "dag-deps"
+    return "independent-roots"
 
 
 def nontrivial(cfg):
@@ -199,7 +195,7 @@ def classify_and_report(ctx, jd, cases, bad, origin):
         if i in explained:
             keys = list(explained[i])
         else:
-            keys = ["C11/%s/unexplained" % features(cfg)]
+            keys = ["C11/runDSL/%s/trace-rejected" % features(cfg)]
         for key in keys:
             perkey.setdefault(key, []).append(i)
     for key, idx in sorted(perkey.items()):
